@@ -6,6 +6,7 @@ package main
 // simulated edges (directory, VIP, mail, transport).
 
 import (
+	"sync/atomic"
 	"bytes"
 	"crypto/tls"
 	"crypto/x509"
@@ -58,6 +59,7 @@ type vfCfg struct {
 	LDAPServers   int         `json:"ldap_servers,omitempty"`
 	NoPwCache     bool        `json:"no_pw_cache,omitempty"`
 	Sealed        bool        `json:"sealed,omitempty"`
+	BadPrimary    bool        `json:"bad_primary,omitempty"` // sealed primary CA file decrypts (right passphrase) to a key the loader must reject (an Ed25519 key)
 	GroupsLDAP    bool        `json:"groups_ldap,omitempty"` // userinfo_sources.ldap configured (simulated directory)
 	PublicLogs    bool        `json:"public_logs,omitempty"`
 	SyncDelay     string      `json:"sync_delay,omitempty"`
@@ -191,6 +193,8 @@ type vfWorld struct {
 	offlineDigest string
 	cacheSynced   map[string]bool
 	agentSim      *vfAgent
+	listenerUp    chan struct{} // closed when the emulated main() received SignerIsReady (the service listener starts then)
+	readySignals  atomic.Int32
 	stdinFile     *os.File
 }
 
@@ -225,6 +229,9 @@ func (w *vfWorld) writeConfig() (string, error) {
 	ca := "ca_rsa.pem"
 	if c.Sealed {
 		ca = "ca_rsa.asc"
+		if c.BadPrimary {
+			ca = "ca_ed25519.asc"
+		}
 	}
 	fmt.Fprintf(&b, "  ssh_ca_filename: %q\n", vfFixture(ca))
 	if c.Ed25519CA {
@@ -711,6 +718,8 @@ type vfCall struct {
 	rec  *httptest.ResponseRecorder
 	resp *vfResp
 	blocked bool // the handler did not return within the simulated watchdog time
+	gate    func() bool // run in the task before the handler; false = the connection was refused (no handler runs)
+	refused bool
 }
 
 func (w *vfWorld) prepare(r *vfReq) *vfCall {
@@ -735,6 +744,10 @@ func (c *vfCall) exec() {
 		return
 	}
 	w := c.w
+	if c.gate != nil && !c.gate() {
+		c.refused = true
+		return
+	}
 	w.setCtx(c.ctx)
 	func() {
 		defer func() {
@@ -756,6 +769,10 @@ func (c *vfCall) finish() *vfResp {
 		return c.resp
 	}
 	resp, rec := c.resp, c.rec
+	if c.refused {
+		resp.NoHandshake = true
+		return resp
+	}
 	resp.Code = rec.Code
 	if resp.Panic != nil {
 		c.w.res.Panics++
